@@ -5,6 +5,7 @@ import CookModel.Lemmas.DiagAnalysis
 import CookModel.Lemmas.DiagMore
 import CookModel.Lemmas.DiagInside
 import CookModel.Lemmas.DiagQuiet
+import CookModel.Lemmas.DiagAnalysisMore
 /-
   C07  Diagnostics are sound, complete and placed on the offending construct.
 
@@ -602,6 +603,46 @@ example : interRefTarget [] 0 ⟨false, false, 0⟩ = .error "inter-ref-zero" :=
 example : interRefTarget [] 0 ⟨true, false, 0⟩ = .error "inter-ref-self" := by rfl
 example : interRefTarget [] 0 ⟨false, false, 99⟩ = .error "inter-ref-bounds" := by rfl
 
+/-- **Unnecessary scaling lock, exactly.**  Turning a parsed value into a scalable value pushes the
+    warning `unnecessary-scaling-lock` (analysis stage, labelled with the value's span) exactly when the
+    value carries a lock `=` and the lock has no effect (the component is not an ingredient, or the
+    value is text); in every other case nothing at all is pushed — in particular `@flour{=200%g}` is quiet. -/
+theorem C07_unnecessary_scaling_lock (env : Env) (v : PQValue α) (isIngredient : Bool) (s : Col α) :
+    (valueOf env v isIngredient s).2 =
+      (if v.lock.isSome && (!isIngredient || v.value.val.isText) then
+        { s with diags := s.diags.push ⟨.warning, .analysis, "unnecessary-scaling-lock", [v.value.span]⟩ }
+       else s) :=
+  valueOf_run env v isIngredient s
+
+/-- **Conflicting modifiers on a reference.**  An explicit reference (`&`, not `+`) whose definition is
+    found at index `refTo` and that carries a modifier (other than `&`) the definition does not have
+    — `refConflictBits` is the set of such modifier bits, computed as in `resolve_reference` — gets
+    `ref-conflicting-modifiers` (error, analysis) on the modifiers' span as the LAST diagnostic, after
+    at most a `redundant-ref` warning, and is still resolved to `refTo`. -/
+theorem C07_ref_conflicting_modifiers (env : Env) (container : String) (inherit : Nat)
+    (existing : List (Str × Modifiers)) (name : Str) (mods : Modifiers) (location modLoc : Span) (s : Col α)
+    (refTo : Nat) (hn : mods.contains Modifiers.NEW = false) (hr : mods.contains Modifiers.REF = true)
+    (hfound : sameNameIdx env existing name = some refTo)
+    (hconf : refConflictBits mods ⟨(((existing[refTo]?).map (·.2)).getD Modifiers.empty).bits &&& inherit⟩ ≠ 0) :
+    ∃ pre, (resolveReference env container inherit existing name mods location modLoc s).2.diags.toList =
+        s.diags.toList ++ pre ++ [⟨.error, .analysis, "ref-conflicting-modifiers", [modLoc]⟩] ∧
+      (resolveReference env container inherit existing name mods location modLoc s).1.2 = some ⟨refTo, false⟩ :=
+  resolveReference_conflict env container inherit existing name mods location modLoc s refTo hn hr hfound hconf
+
+/-- **Modifiers not allowed on an intermediate reference.**  The checks of an ingredient with
+    intermediate data `&(…)` push `inter-ref-conflicting-modifiers` (error, analysis, on the modifiers'
+    span) exactly when one of `@`, `-`, `+` is among its modifiers, and nothing otherwise. -/
+theorem C07_inter_ref_conflicting_modifiers (i : PIngredient α) (igr : Ingredient (ScalableValue α)) (s : Col α)
+    (hr : igr.modifiers.contains Modifiers.REF = true) :
+    (ingrInterChecks i igr s).2 =
+      (if (igr.modifiers.bits &&& (Modifiers.RECIPE ||| Modifiers.HIDDEN ||| Modifiers.NEW)) != 0 then
+        { s with diags := s.diags.push ⟨.error, .analysis, "inter-ref-conflicting-modifiers", [i.modifiers.span]⟩ }
+       else s) :=
+  ingrInterChecks_run i igr s hr
+
+/-! non-vacuity: `&?` against a definition without modifiers conflicts in the `?` bit -/
+example : refConflictBits ⟨Modifiers.REF ||| Modifiers.OPT⟩ ⟨0⟩ = Modifiers.OPT := by decide
+
 /-! ### Soundness, simplest shape -/
 
 /-- **A plain component is quiet** (parser part).  An ingredient or cookware item cut into no
@@ -731,5 +772,38 @@ example : ∃ body note s1 s2 s3 s4, Cut .at C07_exSalt [] body s1 s2 s3 ∧ not
     body.quantity = none ∧ C07_exSalt.ext.has Gen.EXT_COMPONENT_ALIAS = false ∧
     (buildText (curOff s2) body.name).isTextEmpty C07_exSalt.cs = false :=
   ⟨_, _, _, _, _, _, ⟨⟨_, rfl⟩, rfl, rfl⟩, rfl, rfl, rfl, rfl⟩
+
+/-- **A plain definition is quiet in the analysis, for every extension set** (the analysis half of the
+    quiet theorems above).  In the default modes (`[define]` not `steps`, `[duplicate]` `new`):
+    * an ingredient event without `+`/`&` and without intermediate data, whose quantity (if any) has no
+      lock or a numeric value — any value, any unit, note, alias — pushes no diagnostic;
+    * a cookware event without `+`/`&` whose quantity (if any) has no lock pushes no diagnostic;
+    * a timer event whose quantity (if any) has no lock pushes no diagnostic when ADVANCED_UNITS is off,
+      or when the value is a number and the converter knows the (trimmed) unit as a time unit.
+    Together with `C07_quiet_component_partial` / `C07_quiet_component_quantity`: `@salt{}`, `@salt{1%g}`,
+    `~{1%min}` yield no diagnostic at all. -/
+theorem C07_quiet_analysis (env : Env) (input : Str) (s : Col α) (hd : s.defineMode ≠ .steps)
+    (hdup : s.duplicateMode = .new) :
+    (∀ li : Loc (PIngredient α), li.val.inter = none → li.val.modifiers.val.contains Modifiers.NEW = false →
+      li.val.modifiers.val.contains Modifiers.REF = false →
+      (∀ q, li.val.quantity = some q → q.val.value.lock = none ∨ q.val.value.value.val.isText = false) →
+      (ingredientA env input li s).2.diags = s.diags) ∧
+    (∀ lc : Loc (PCookware α), lc.val.modifiers.val.contains Modifiers.NEW = false →
+      lc.val.modifiers.val.contains Modifiers.REF = false →
+      (∀ q, lc.val.quantity = some q → q.val.lock = none) →
+      (cookwareA env input lc s).2.diags = s.diags) ∧
+    (∀ lt : Loc (PTimer α),
+      (∀ q, lt.val.quantity = some q → q.val.value.lock = none ∧
+        (env.ext.has Gen.EXT_ADVANCED_UNITS = false ∨
+         (q.val.value.value.val.isText = false ∧ ∃ u, q.val.unit = some u ∧
+            env.findUnit (u.trimmed env.cs) = some env.timeQ))) →
+      (timerA env lt s).2.diags = s.diags) :=
+  ⟨fun li hi hn hr hq => ingredientA_quiet env input li s hi hn hr hq hd hdup,
+   fun lc hn hr hq => cookwareA_quiet env input lc s hn hr hq hd hdup,
+   fun lt hq => timerA_quiet env lt s hq⟩
+
+/-! non-vacuity: the default collector state is in the default modes; empty modifiers have no `+`/`&` -/
+example : ({} : Col Rat).defineMode ≠ .steps ∧ ({} : Col Rat).duplicateMode = .new := ⟨by decide, rfl⟩
+example : Modifiers.empty.contains Modifiers.NEW = false ∧ Modifiers.empty.contains Modifiers.REF = false := by decide
 
 end Cook
